@@ -130,11 +130,22 @@ def join_facts(fn: ast.FunctionDef):
             if not isinstance(rhs, (ast.List, ast.Tuple, ast.Set)):
                 raise Untranslatable("join_type in <non-literal>")
             vals = [_const_str(x, "element of the semi/anti list") for x in rhs.elts]
-            # must select self_columns when true, self_columns + other_columns otherwise
-            if not (isinstance(par, ast.IfExp) and par.test is c and _is_name(par.body, "self_columns")
-                    and isinstance(par.orelse, ast.BinOp) and isinstance(par.orelse.op, ast.Add)
-                    and _is_name(par.orelse.left, "self_columns") and _is_name(par.orelse.right, "other_columns")):
-                raise Untranslatable("`join_type in [...]` does not choose between self_columns and self_columns + other_columns")
+            # must select <left columns> when true, <left columns> + <right columns> otherwise (whatever the locals are called)
+            ok_shape = (isinstance(par, ast.IfExp) and par.test is c and isinstance(par.body, ast.Name)
+                        and isinstance(par.orelse, ast.BinOp) and isinstance(par.orelse.op, ast.Add)
+                        and isinstance(par.orelse.left, ast.Name) and isinstance(par.orelse.right, ast.Name)
+                        and par.orelse.left.id == par.body.id and par.orelse.right.id != par.body.id)
+            if ok_shape:
+                def origin(name):
+                    vs = [st.value for st in ast.walk(fn) if isinstance(st, ast.Assign) and len(st.targets) == 1
+                          and _is_name(st.targets[0], name)]
+                    if len(vs) != 1 or not (isinstance(vs[0], ast.Call) and isinstance(vs[0].func, ast.Attribute)
+                                            and vs[0].func.attr == "_get_outer_select_columns" and len(vs[0].args) == 1):
+                        raise Untranslatable(f"`{name}` is not assigned once from _get_outer_select_columns(...)")
+                    return ast.unparse(vs[0].args[0])
+                ok_shape = origin(par.body.id) == "join_expression" and origin(par.orelse.right.id) == "other_df.expression"
+            if not ok_shape:
+                raise Untranslatable("`join_type in [...]` does not choose between the left columns and left + right columns")
             if left_only is not None:
                 raise Untranslatable("two `join_type in` tests")
             left_only = vals
@@ -178,6 +189,12 @@ def ambiguous_facts(fn: ast.FunctionDef):
         if isinstance(c, ast.IfExp) and isinstance(c.test, ast.Compare) and len(c.test.ops) == 1:
             t = c.test
             l = t.left
+            if isinstance(l, ast.Name):
+                # tolerate `side = <...>.get("side", ""); ... if side == "right"`
+                vs = [st.value for st in ast.walk(fn) if isinstance(st, ast.Assign) and len(st.targets) == 1
+                      and _is_name(st.targets[0], l.id)]
+                if len(vs) == 1:
+                    l = vs[0]
             if isinstance(l, ast.Call) and isinstance(l.func, ast.Attribute) and l.func.attr == "get" and l.args \
                     and isinstance(l.args[0], ast.Constant) and l.args[0].value == "side":
                 if not isinstance(t.ops[0], ast.Eq):
